@@ -11,7 +11,7 @@ def chain_resetwire_touches : List String := ["Meta", "Request", "Writer", "base
 def chain_resetwire_untouched : List String := ["handlers", "reqStorage", "workPolicy"]
 def edns_servedns_slot_unreset : List Nat := []
 def edns_servewire_slot_unreset : List Nat := []
-def grouplookup_copies_when_shared : Bool := false
+def grouplookup_copies_when_shared : Bool := true
 def grouplookup_rewrites_id : Bool := true
 def rw_fields : List String := ["Transport", "msg", "wire", "size", "rcode", "proto", "remoteip", "internal", "directPack"]
 def rw_reset_sets : List String := ["Transport", "directPack", "internal", "msg", "proto", "rcode", "remoteip", "size", "wire"]
